@@ -1,6 +1,8 @@
 """C01 Operators never start before their parents have completed; DAG iteration is topological."""
 from harness.impl import OST, OST_IDX, World, all_dags, random_dag, enc_pipes, enc_list, enc_dag, err_code, E_DEP
 from harness.props import C02
+from harness import execdrv as X
+from harness import execprops as P
 
 ID = 'C01'
 KIND_DAG, KIND_LIFE = 1, 2
@@ -60,8 +62,30 @@ def drive_life(recipe):
     return dict(kind=KIND_LIFE, inp=inp, obs=out, recipe=recipe, gen=recipe.get('gen')), hits
 
 
+EXEC_MASK = X.M_STATES | X.M_RESULTS
+
+
+def exec_monitor(run):
+    """operator states at both phase boundaries of every tick: started operators have completed parents;
+    a batch that would start an operator with an unfinished parent ends in the dependency error"""
+    w = run.w
+    for t, e in enumerate(run.trace):
+        for phase, sts in (('scheduler', e.get('pre_states')), ('executor', e.get('states') if not e['err'] else None)):
+            if not sts:
+                continue
+            for i, o in enumerate(w.ops):
+                if sts[i] in (R, Cc) and any(sts[w.gid[p]] != Cc for p in o.parents):
+                    yield (f'tick {t} after the {phase} phase: operator {i} is {OST[sts[i]].value} while parent '
+                           f'{[w.gid[p] for p in o.parents if sts[w.gid[p]] != Cc][0]} is unfinished')
+
+
 def replay(recipe):
-    return drive_dag(recipe) if 'dag' in recipe else drive_life(recipe)
+    if 'dag' in recipe:
+        return drive_dag(recipe)
+    if 'ticks' in recipe:
+        case, hits, _ = P.drive(recipe, EXEC_MASK, exec_monitor, 'dependency')
+        return case, hits
+    return drive_life(recipe)
 
 
 def run(ctx):
@@ -118,9 +142,13 @@ def run(ctx):
         cases.append(c)
         hits += h
         dist['life_histories'] += 1
+    ex = P.run_property(ctx, EXEC_MASK, exec_monitor, 'dependency', [('G-exec', 150, 3000, dict(p_bad=0.5))])
+    cases += ex['cases']
+    hits += ex['hits']
+    dist['executor'] = ex['dist']
     return dict(cases=cases, hits=hits, dist=dist, exhaustive=True,
                 distinct_nontrivial=dist['dags_exhaustive'] + dist['dags_random'] + dist['starts_refused'],
                 rule='every DAG on <= 6 operators (parents = any subset of earlier operators; 33868 graphs) and random DAGs '
                      'of 7..40 operators: list(pipeline.values) vs Dag.iterate; request histories on branching DAGs with '
-                     'legal and illegal starts. non-trivial = distinct graphs + refused starts',
+                     'legal and illegal starts; executor command histories (G-exec, half of them with an inadmissible command such as an unfinished parent or a wrong order inside a pack), states at both phase boundaries. non-trivial = distinct graphs + refused starts',
                 samples=[cases[100]['recipe'], cases[-1]['recipe']])
